@@ -146,4 +146,297 @@ theorem runET_reads (sys : Sys P) (n : Nat) : ∀ (e : Expr P) (s : St P) (r : R
               · exact hoka kr h1
               · exact hokb kr h1
 
+
+/-! ## the whole-request log -/
+
+mutual
+theorem runL_erase (sys : Sys P) : ∀ (n : Nat) (s : St P) (v : Nat) (p : P),
+    (runL sys n s v p).map eraseL = run sys n s v p
+  | 0, _, _, _ => by simp [runL, run]
+  | n+1, s, v, p => by
+    unfold runL run
+    cases hl : lookup s.cache (sys.slot (v, p)) with
+    | some xg => obtain ⟨x, g⟩ := xg; rfl
+    | none =>
+      simp only
+      cases hin : sys.input v p with
+      | some x => rfl
+      | none =>
+        simp only
+        by_cases hst : (v, p) ∈ s.stack
+        · rw [if_pos hst, if_pos hst]; rfl
+        · rw [if_neg hst, if_neg hst]
+          by_cases hsp : sys.msl ≤ (s.stack.filter (fun k => k.1 = v)).length
+          · rw [if_pos hsp, if_pos hsp]; rfl
+          · rw [if_neg hsp, if_neg hsp]
+            cases hf : sys.formula v p with
+            | none => rfl
+            | some e =>
+              simp only
+              have ih := runLE_erase sys n { s with stack := (v, p) :: s.stack } e
+              rw [← ih]
+              cases runLE sys n { s with stack := (v, p) :: s.stack } e with
+              | none => rfl
+              | some res =>
+                obtain ⟨r, g, s1, t, l⟩ := res
+                cases r <;> rfl
+theorem runLE_erase (sys : Sys P) : ∀ (n : Nat) (s : St P) (e : Expr P),
+    (runLE sys n s e).map eraseLE = runE sys n s e
+  | _, s, .const k => by simp [runLE, runE, eraseLE]
+  | _, s, .bad => by simp [runLE, runE, eraseLE]
+  | n, s, .ref v p => by
+    simp only [runLE, runE]
+    rw [← runL_erase sys n s v p]
+    cases runL sys n s v p with
+    | none => rfl
+    | some res => obtain ⟨r, g, s', l⟩ := res; rfl
+  | n, s, .fail id a => by
+    simp only [runLE, runE]
+    split
+    · rfl
+    · exact runLE_erase sys n s a
+  | n, s, .op1 o a => by
+    have ih := runLE_erase sys n s a
+    simp only [runLE, runE]
+    rw [← ih]
+    cases runLE sys n s a with
+    | none => rfl
+    | some res =>
+      obtain ⟨r, g, s1, t, l⟩ := res
+      cases r <;> rfl
+  | n, s, .op2 o a b => by
+    have iha := runLE_erase sys n s a
+    simp only [runLE, runE]
+    rw [← iha]
+    cases runLE sys n s a with
+    | none => rfl
+    | some res =>
+      obtain ⟨r, g1, s1, t1, l1⟩ := res
+      cases r with
+      | error e => rfl
+      | ok x =>
+        have ihb := runLE_erase sys n s1 b
+        simp only [Option.map_some, eraseLE]
+        rw [← ihb]
+        cases runLE sys n s1 b with
+        | none => rfl
+        | some res2 =>
+          obtain ⟨r2, g2, s2, t2, l2⟩ := res2
+          cases r2 <;> rfl
+end
+
+/-- the first entry of a request's log is the requested calculation itself, with the result
+    returned; a request served without running a formula opens nothing else and lists no read -/
+theorem runL_head (sys : Sys P) (n : Nat) (s : St P) (v : Nat) (p : P) (r : Res) (g : Bool) (s' : St P) (l : Log P)
+    (h : runL sys n s v p = some (r, g, s', l)) :
+    ∃ t rest, l = ((v, p), r, t) :: rest ∧
+      ((lookup s.cache (sys.slot (v, p)) ≠ none ∨ sys.input v p ≠ none ∨ sys.formula v p = none) → t = [] ∧ rest = []) := by
+  cases n with
+  | zero => simp [runL] at h
+  | succ n =>
+    unfold runL at h
+    split at h
+    · simp only [Option.some.injEq, Prod.mk.injEq] at h
+      obtain ⟨rfl, _, _, rfl⟩ := h
+      exact ⟨[], [], rfl, fun _ => ⟨rfl, rfl⟩⟩
+    · rename_i hl
+      split at h
+      · simp only [Option.some.injEq, Prod.mk.injEq] at h
+        obtain ⟨rfl, _, _, rfl⟩ := h
+        exact ⟨[], [], rfl, fun _ => ⟨rfl, rfl⟩⟩
+      · rename_i hin
+        split at h
+        · simp only [Option.some.injEq, Prod.mk.injEq] at h
+          obtain ⟨rfl, _, _, rfl⟩ := h
+          exact ⟨[], [], rfl, fun _ => ⟨rfl, rfl⟩⟩
+        · split at h
+          · simp only [Option.some.injEq, Prod.mk.injEq] at h
+            obtain ⟨rfl, _, _, rfl⟩ := h
+            exact ⟨[], [], rfl, fun _ => ⟨rfl, rfl⟩⟩
+          · split at h
+            · simp only [Option.some.injEq, Prod.mk.injEq] at h
+              obtain ⟨rfl, _, _, rfl⟩ := h
+              exact ⟨[], [], rfl, fun _ => ⟨rfl, rfl⟩⟩
+            · rename_i e hf
+              split at h
+              · cases h
+              · simp only [Option.some.injEq, Prod.mk.injEq] at h
+                obtain ⟨rfl, _, _, rfl⟩ := h
+                refine ⟨_, _, rfl, ?_⟩
+                rintro (h1 | h1 | h1)
+                · exact absurd hl h1
+                · exact absurd hin h1
+                · rw [hf] at h1; cases h1
+              · simp only [Option.some.injEq, Prod.mk.injEq] at h
+                obtain ⟨rfl, _, _, rfl⟩ := h
+                refine ⟨_, _, rfl, ?_⟩
+                rintro (h1 | h1 | h1)
+                · exact absurd hl h1
+                · exact absurd hin h1
+                · rw [hf] at h1; cases h1
+
+/-- every entry of a log is well formed, and every read an entry lists is itself an entry of the
+    log (with the result the read returned) -/
+def LogOK (sys : Sys P) (l : Log P) : Prop :=
+  (∀ en ∈ l, TraceOK sys en) ∧ ∀ en ∈ l, ∀ kr ∈ en.2.2, ∃ t, (kr.1, kr.2, t) ∈ l
+
+theorem logOK_append (sys : Sys P) {l1 l2 : Log P} (h1 : LogOK sys l1) (h2 : LogOK sys l2) : LogOK sys (l1 ++ l2) := by
+  refine ⟨fun en hen => ?_, fun en hen kr hkr => ?_⟩
+  · rcases List.mem_append.1 hen with h | h
+    · exact h1.1 en h
+    · exact h2.1 en h
+  · rcases List.mem_append.1 hen with h | h
+    · obtain ⟨t, ht⟩ := h1.2 en h kr hkr; exact ⟨t, List.mem_append_left _ ht⟩
+    · obtain ⟨t, ht⟩ := h2.2 en h kr hkr; exact ⟨t, List.mem_append_right _ ht⟩
+
+theorem logOK_nil (sys : Sys P) : LogOK sys ([] : Log P) :=
+  ⟨(fun en hen => by cases hen), (fun en hen => by cases hen)⟩
+
+mutual
+theorem runL_ok (sys : Sys P) : ∀ (n : Nat) (s : St P) (v : Nat) (p : P) (r : Res) (g : Bool) (s' : St P) (l : Log P),
+    runL sys n s v p = some (r, g, s', l) → LogOK sys l
+  | 0, _, _, _, _, _, _, _, h => by simp [runL] at h
+  | n+1, s, v, p, r, g, s', l, h => by
+    have leaf : ∀ (r0 : Res), LogOK sys [((v, p), r0, [])] := fun r0 =>
+      ⟨fun en hen => by simp only [List.mem_singleton] at hen; subst hen; exact Or.inl rfl,
+       fun en hen kr hkr => by simp only [List.mem_singleton] at hen; subst hen; cases hkr⟩
+    unfold runL at h
+    split at h
+    · simp only [Option.some.injEq, Prod.mk.injEq] at h
+      obtain ⟨_, _, _, rfl⟩ := h; exact leaf _
+    · split at h
+      · simp only [Option.some.injEq, Prod.mk.injEq] at h
+        obtain ⟨_, _, _, rfl⟩ := h; exact leaf _
+      · split at h
+        · simp only [Option.some.injEq, Prod.mk.injEq] at h
+          obtain ⟨_, _, _, rfl⟩ := h; exact leaf _
+        · split at h
+          · simp only [Option.some.injEq, Prod.mk.injEq] at h
+            obtain ⟨_, _, _, rfl⟩ := h; exact leaf _
+          · split at h
+            · simp only [Option.some.injEq, Prod.mk.injEq] at h
+              obtain ⟨_, _, _, rfl⟩ := h; exact leaf _
+            · rename_i e hf
+              have node : ∀ (re r0 : Res) (ge : Bool) (se : St P) (t : List (Node P × Res)) (le : Log P),
+                  runLE sys n { s with stack := (v, p) :: s.stack } e = some (re, ge, se, t, le) →
+                  ((∃ x, r0 = .ok x) → ∃ x, re = .ok x) → LogOK sys (((v, p), r0, t) :: le) := by
+                intro re r0 ge se t le hre hok
+                obtain ⟨hlog, hpre, hall, hrec⟩ := runLE_ok sys n _ e re ge se t le hre
+                refine ⟨fun en hen => ?_, fun en hen kr hkr => ?_⟩
+                · rcases List.mem_cons.1 hen with rfl | hen
+                  · exact Or.inr ⟨e, hf, hpre, fun hx => hall (hok hx)⟩
+                  · exact hlog.1 en hen
+                · rcases List.mem_cons.1 hen with rfl | hen
+                  · obtain ⟨t', ht'⟩ := hrec kr hkr; exact ⟨t', List.mem_cons_of_mem _ ht'⟩
+                  · obtain ⟨t', ht'⟩ := hlog.2 en hen kr hkr; exact ⟨t', List.mem_cons_of_mem _ ht'⟩
+              split at h
+              · cases h
+              · rename_i er g1 s1 t1 l1 hre
+                simp only [Option.some.injEq, Prod.mk.injEq] at h
+                obtain ⟨_, _, _, rfl⟩ := h
+                exact node _ _ _ _ _ _ hre ((fun hh => by obtain ⟨x, hx⟩ := hh; cases hx))
+              · rename_i x g1 s1 t1 l1 hre
+                simp only [Option.some.injEq, Prod.mk.injEq] at h
+                obtain ⟨_, _, _, rfl⟩ := h
+                exact node _ _ _ _ _ _ hre (fun _ => ⟨x, rfl⟩)
+theorem runLE_ok (sys : Sys P) : ∀ (n : Nat) (s : St P) (e : Expr P) (r : Res) (g : Bool) (s' : St P)
+    (t : List (Node P × Res)) (l : Log P), runLE sys n s e = some (r, g, s', t, l) →
+    LogOK sys l ∧ (t.map (·.1)) <+: refs e ∧
+    ((∃ x, r = .ok x) → t.map (·.1) = refs e ∧ ∀ kr ∈ t, ∃ y, kr.2 = .ok y) ∧
+    (∀ kr ∈ t, ∃ t', (kr.1, kr.2, t') ∈ l)
+  | _, s, .const k, r, g, s', t, l, h => by
+    simp only [runLE, Option.some.injEq, Prod.mk.injEq] at h
+    obtain ⟨_, _, _, rfl, rfl⟩ := h
+    exact ⟨logOK_nil sys, (by simp [refs]), (fun _ => by simp [refs]), (fun kr hkr => by cases hkr)⟩
+  | _, s, .bad, r, g, s', t, l, h => by
+    simp only [runLE, Option.some.injEq, Prod.mk.injEq] at h
+    obtain ⟨_, _, _, rfl, rfl⟩ := h
+    exact ⟨logOK_nil sys, (by simp [refs]), (fun _ => by simp [refs]), (fun kr hkr => by cases hkr)⟩
+  | n, s, .ref v p, r, g, s', t, l, h => by
+    simp only [runLE] at h
+    cases hr : runL sys n s v p with
+    | none => rw [hr] at h; cases h
+    | some res =>
+      obtain ⟨r0, g0, s0, l0⟩ := res
+      rw [hr] at h
+      simp only [Option.some.injEq, Prod.mk.injEq] at h
+      obtain ⟨rfl, _, _, rfl, rfl⟩ := h
+      obtain ⟨t0, rest, hl0, _⟩ := runL_head sys n s v p _ _ _ _ hr
+      refine ⟨runL_ok sys n s v p _ _ _ _ hr, by simp [refs], ?_, ?_⟩
+      · rintro ⟨x, rfl⟩; simp [refs]
+      · intro kr hkr
+        simp only [List.mem_singleton] at hkr; subst hkr
+        exact ⟨t0, by rw [hl0]; exact List.mem_cons_self⟩
+  | n, s, .fail id a, r, g, s', t, l, h => by
+    simp only [runLE] at h
+    split at h
+    · simp only [Option.some.injEq, Prod.mk.injEq] at h
+      obtain ⟨rfl, _, _, rfl, rfl⟩ := h
+      exact ⟨logOK_nil sys, (by simp), (fun hh => by obtain ⟨x, hx⟩ := hh; cases hx), (fun kr hkr => by cases hkr)⟩
+    · simpa [refs] using runLE_ok sys n s a r g s' t l h
+  | n, s, .op1 o a, r, g, s', t, l, h => by
+    simp only [runLE] at h
+    cases ha : runLE sys n s a with
+    | none => rw [ha] at h; cases h
+    | some res =>
+      obtain ⟨ra, ga, sa, ta, la⟩ := res
+      rw [ha] at h
+      obtain ⟨i1, i2, i3, i4⟩ := runLE_ok sys n s a ra ga sa ta la ha
+      cases ra with
+      | error e =>
+        simp only [Option.some.injEq, Prod.mk.injEq] at h
+        obtain ⟨rfl, _, _, rfl, rfl⟩ := h
+        exact ⟨i1, (by simpa [refs] using i2), (fun hh => by obtain ⟨x, hx⟩ := hh; cases hx), i4⟩
+      | ok x =>
+        simp only [Option.some.injEq, Prod.mk.injEq] at h
+        obtain ⟨rfl, _, _, rfl, rfl⟩ := h
+        exact ⟨i1, (by simpa [refs] using i2), (fun _ => by simpa [refs] using i3 ⟨x, rfl⟩), i4⟩
+  | n, s, .op2 o a b, r, g, s', t, l, h => by
+    simp only [runLE] at h
+    cases ha : runLE sys n s a with
+    | none => rw [ha] at h; cases h
+    | some res =>
+      obtain ⟨ra, ga, sa, ta, la⟩ := res
+      rw [ha] at h
+      obtain ⟨i1, i2, i3, i4⟩ := runLE_ok sys n s a ra ga sa ta la ha
+      cases ra with
+      | error e =>
+        simp only [Option.some.injEq, Prod.mk.injEq] at h
+        obtain ⟨rfl, _, _, rfl, rfl⟩ := h
+        refine ⟨i1, ?_, (fun hh => by obtain ⟨x, hx⟩ := hh; cases hx), i4⟩
+        simp only [refs]; exact List.IsPrefix.trans i2 (List.prefix_append _ _)
+      | ok x =>
+        obtain ⟨hta, hoka⟩ := i3 ⟨x, rfl⟩
+        simp only at h
+        cases hb : runLE sys n sa b with
+        | none => rw [hb] at h; cases h
+        | some res2 =>
+          obtain ⟨rb, gb, sb, tb, lb⟩ := res2
+          rw [hb] at h
+          obtain ⟨j1, j2, j3, j4⟩ := runLE_ok sys n sa b rb gb sb tb lb hb
+          have hrec : ∀ kr ∈ ta ++ tb, ∃ t', (kr.1, kr.2, t') ∈ la ++ lb := by
+            intro kr hkr
+            rcases List.mem_append.1 hkr with h1 | h1
+            · obtain ⟨t', ht'⟩ := i4 kr h1; exact ⟨t', List.mem_append_left _ ht'⟩
+            · obtain ⟨t', ht'⟩ := j4 kr h1; exact ⟨t', List.mem_append_right _ ht'⟩
+          cases rb with
+          | error e =>
+            simp only [Option.some.injEq, Prod.mk.injEq] at h
+            obtain ⟨rfl, _, _, rfl, rfl⟩ := h
+            refine ⟨logOK_append sys i1 j1, ?_, (fun hh => by obtain ⟨y, hy⟩ := hh; cases hy), hrec⟩
+            simp only [refs, List.map_append, hta]
+            exact (List.prefix_append_right_inj _).2 j2
+          | ok y =>
+            simp only [Option.some.injEq, Prod.mk.injEq] at h
+            obtain ⟨rfl, _, _, rfl, rfl⟩ := h
+            obtain ⟨htb, hokb⟩ := j3 ⟨y, rfl⟩
+            refine ⟨logOK_append sys i1 j1, ?_, fun _ => ⟨?_, ?_⟩, hrec⟩
+            · simp only [refs, List.map_append, hta, htb]; exact List.prefix_refl _
+            · simp only [refs, List.map_append, hta, htb]
+            · intro kr hkr
+              rcases List.mem_append.1 hkr with h1 | h1
+              · exact hoka kr h1
+              · exact hokb kr h1
+end
+
 end OFCore.Engine
